@@ -59,6 +59,8 @@ class FakeClf(object):
         a = "Retry" if retry else ("Read" if unit is not None else "Cmd")
         self.rec.append(dict(a=a, u=B.unit_str(unit), n=name, ok=bool(answered), o=0))
         if rsp is None:
+            if self.sim.applied == "xerr":
+                raise nfc.clf.TransmissionError("sim: garbled frame")
             raise nfc.clf.TimeoutError("sim: no answer")
         return bytearray(rsp)
 
@@ -237,9 +239,9 @@ def rl(rnd, n):
 def nxp_variants(rnd, product):
     some = lambda menu, n: [rnd.choice(menu) for _ in range(n)]
     rd = [["trunc", 1], ["trunc", 4], ["trunc", 12], ["trunc", 15], ["trunc", 16], ["extend", [0]], ["extend", rl(rnd, 16)],
-          ["raw", [0x0A]], ["raw", [0x00]], ["raw", [0x05]], ["raw", rl(rnd, 2)], "none", None, None, None, None, None, None]
-    ver = [["trunc", 1], ["trunc", 7], ["trunc", 8], ["extend", [3]], ["raw", [0]], ["raw", [0xAF]], ["raw", rl(rnd, 8)], "none", None]
-    au = [["trunc", 1], ["trunc", 8], ["trunc", 9], ["extend", [0]], ["raw", [0xAF]], ["raw", [0x00]], ["raw", rl(rnd, 9)], None]
+          ["raw", [0x0A]], ["raw", [0x00]], ["raw", [0x05]], ["raw", rl(rnd, 2)], "none", "xerr", None, None, None, None, None, None]
+    ver = [["trunc", 1], ["trunc", 7], ["trunc", 8], ["extend", [3]], ["raw", [0]], ["raw", [0xAF]], ["raw", rl(rnd, 8)], "none", "xerr", None]
+    au = [["trunc", 1], ["trunc", 8], ["trunc", 9], ["extend", [0]], ["raw", [0xAF]], ["raw", [0x00]], ["raw", rl(rnd, 9)], "xerr", None]
     sig = [["trunc", 1], ["trunc", 32], ["extend", [1, 2]], ["raw", [0x00]], "none", None]
     ss = [["raw", [0x0A, 0]], ["raw", []], ["raw", [0x00]], "none", None, None]
     return {"READ": some(rd, rnd.choice([2, 6, 20])), "VERSION": some(ver, 1), "AUTH1": some(au, 1), "SIG": some(sig, 1),
@@ -438,6 +440,13 @@ def directed():
                         nak="byte" if prod == "NTAG203" else "timeout"))
         out.append(dict(id="d-nxp-%s-silent-in-dump" % prod, fam="nxp", product=prod, uid=[4, 1, 2, 3, 4, 5, 6], image=list(img),
                         nak="byte" if prod == "NTAG203" else "timeout", silent_from=14))
+    for prod, cls, v in (("ULC", "AUTH1", "xerr"), ("NTAG213", "VERSION", "xerr"), ("NTAG213", "VERSION", ["raw", [0]]),
+                         ("NTAG213", "VERSION", ["raw", [1, 2, 3]])):
+        out.append(dict(id="d-nxp-%s-probe-%s-%s" % (prod, cls, v if isinstance(v, str) else len(v[1])), fam="nxp", product=prod,
+                        uid=[4, 1, 2, 3, 4, 5, 6], image=[0xE1, 0x10, 0x12, 0] + [3, 0, 0xFE, 0], mut={cls: [v]}))
+    for sf in (1, 2, 3):
+        out.append(dict(id="d-nxp-gone-at-%d" % sf, fam="nxp", product="NTAG203", uid=[4, 1, 2, 3, 4, 5, 6], nak="byte",
+                        image=[0xE1, 0x10, 0x12, 0] + [3, 0, 0xFE, 0], silent_from=sf))
     out.append(dict(id="d-nxp-ulc-auth-probe-short", fam="nxp", product="ULC", uid=[4, 1, 2, 3, 4, 5, 6],
                     image=[0xE1, 0x10, 0x12, 0] + [3, 0, 0xFE, 0], mut={"AUTH1": [["raw", [0xAF]]]}))
     for size in (120, 512):
